@@ -5,6 +5,7 @@ import (
 	"go/token"
 	"go/types"
 	"sort"
+	"strings"
 
 	"golang.org/x/tools/go/ssa"
 )
@@ -269,7 +270,8 @@ func (fr *Frame) invArgs(l *Loop, cl *Clause, st *State, sub func(*ssa.Phi) (Val
 				continue
 			}
 		}
-		if a, ok := v.(*ssa.Alloc); ok {
+		if a, ok := v.(*ssa.Alloc); ok && a.Comment == lv {
+			// address-taken local: the variable's value is the cell's content
 			pv := fr.get(a)
 			t := ptrElem(a.Type())
 			args = append(args, Val{T: t, S: vc.load(st, vc.locOf(pv))})
@@ -313,7 +315,24 @@ func (fr *Frame) enterLoop(b *ssa.BasicBlock, st *State, reach string, entryPhi 
 	if l.mods == nil {
 		l.mods = vc.eng.loopMods(fr.fn, l)
 	}
-	vc.havocMods(st, l.mods)
+	if vc.frame.active && vc.frame.strict && !fr.pure && !l.mods.all {
+		// The function under contract has a declared frame: every write in it is
+		// an obligation (frame:...) to hit only objects allocated during this
+		// execution or the objects listed in its modifies clause. The loop may
+		// therefore change nothing else: objects that existed on entry keep their
+		// contents across the cut.
+		for _, k := range l.mods.keys() {
+			vc.registerKey(k)
+			if strings.HasPrefix(k, "G|") || strings.HasPrefix(k, "Gh|") {
+				vc.havocHeap(st, k, "", nil)
+			} else {
+				vc.havocHeap(st, k, vc.frame.next0, vc.frame.refs)
+			}
+		}
+		vc.bumpNext(st)
+	} else {
+		vc.havocMods(st, l.mods)
+	}
 	for _, phi := range phis {
 		t := phi.Type()
 		ev := entryVals[phi]
